@@ -51,3 +51,12 @@ Example C04_example :
   let bs := set_conn (set_conn (set_conn (winit [(0,2);(1,1);(2,4)]) 0 4) 1 2) 2 9 in
   option_map (map wb_id) (least_conns bs) = Some [0; 1].
 Proof. exact eq_refl. Qed.
+
+(* Central statement: wf_C04 (the input decodes as a BalanceRR least-connection history) and kf_C04 = 0 imply that the
+   model's run satisfies prop_C04.  Partial in one respect: kind 8 inputs (the same property observed through
+   BalanceGslb, incl. the cross-cluster branch) are tied and judged at run time only. *)
+Theorem C04_central_partial : forall i, wf_C04 i = true -> kf_C04 i = 0 -> prop_C04 i (run_C04 i) = true.
+Proof. exact central_C04. Qed.
+Print Assumptions C04_central_partial.
+Example C04_central_nonvacuous : wf_C04 sample_C04 = true.
+Proof. exact sample_C04_wf. Qed.
